@@ -170,3 +170,13 @@ package flow
 //@   ensures[cold-start-slope] wuSlope(cast(dynptr(r), WarmUpTrafficShapingCalculator))
 //@   ensures[empty-bucket] cast(dynptr(r), WarmUpTrafficShapingCalculator).storedTokens == 0
 //@   modifies rule.WarmUpColdFactor
+
+// ---- C13: whole-set load. The grouping loop must cope with any element, including nil; the rebuild itself
+// (onRuleUpdate) is under a separate contract.
+//@ func onRuleUpdate(rawResRulesMap) err
+//@   assumed
+//@ func LoadRules(rules) (changed, err)
+//@   props C13
+//@   panics never
+//@   witness n = len(rules)
+//@   replay loadrules_nil
